@@ -80,7 +80,13 @@ func (h *simHost) fakeAccept(remote *simStream) {
 	fp.helloExpected = false
 	if fp.node != nil && fp.node.ps != nil {
 		ps := fp.node.ps
-		fp.helloExpected = len(ps.mySubs)+len(ps.myRelays) > 0
+		fp.helloExpected = len(ps.myRelays) > 0
+		for t := range ps.mySubs {
+			// (subscriptions to a topic joined with FanoutOnly() are not announced)
+			if tp := ps.myTopics[t]; tp == nil || !tp.fanoutOnly {
+				fp.helloExpected = true
+			}
+		}
 		if gs, ok := ps.rt.(*GossipSubRouter); ok && gs.feature(GossipSubFeatureExtensions, remote.proto) &&
 			(gs.extensions.myExtensions.TestExtension || gs.extensions.myExtensions.PartialMessages) {
 			fp.helloExpected = true
